@@ -85,6 +85,8 @@ func genWrites(r *rt.Rand, tier string, idx int, o writeOpts) *world.Scenario {
 		sc.Stick = 0.3 + 0.6*r.Float64()
 	}
 	sc.Free.ConflictPlain = r.Chance(0.3)
+	// the event cache size is a tuning knob (0 = the default of 200 000): correctness must not depend on it
+	sc.WatchCache = []int{0, 0, 0, 1, 2, 3, 5, 8, 64}[r.Intn(9)]
 	nk := 1 + r.Intn(3)
 	perm := r.Perm(len(keyUniverse))
 	keys := make([]string, nk)
@@ -312,6 +314,36 @@ func checkChain(c *Ctx, P string, justify bool) {
 			uncertain = true
 		}
 	}
+	// step after which no unknown-outcome commit or repair write is in flight any more
+	settledAfter := uint64(0)
+	for _, e := range w.KV.GT {
+		if strings.HasPrefix(e.Fault, "uncertain") || e.ByRetry {
+			if e.RetStep > settledAfter {
+				settledAfter = e.RetStep
+			}
+			if e.RetStep == 0 {
+				settledAfter = ^uint64(0)
+			}
+		}
+	}
+	if uncertain && len(w.KV.GT) > 0 {
+		// an applied unknown-outcome write that was never repaired (the run ended first) keeps the rule off
+		repaired := false
+		for _, e := range w.KV.GT {
+			if e.ByRetry && e.Applied {
+				repaired = true
+			}
+		}
+		lost := true
+		for _, e := range w.KV.GT {
+			if e.Fault == "uncertain-applied" {
+				lost = false
+			}
+		}
+		if !repaired && !lost {
+			settledAfter = ^uint64(0)
+		}
+	}
 	overlap := false
 	// (a) chain
 	for key, cs := range tl.Keys {
@@ -403,7 +435,10 @@ func checkChain(c *Ctx, P string, justify bool) {
 				// concurrent change of the key during the request justifies a failure
 				always = false
 			}
-			if always && !uncertain {
+			// (with unknown outcomes in the run the states are still the store's own, from the ground truth:
+			// the rule stays on for requests that began after every unknown-outcome commit had returned and
+			// its repair, if any, had been applied)
+			if always && (!uncertain || r.Inv > settledAfter) {
 				out.violate(P, "unjustified-failure", fmt.Sprintf("unjustified-failure op=%s", r.Op.K),
 					"client %d %s %s expect=%d reported a failed condition although the key matched the expectation throughout [%d,%d]: states %+v",
 					r.Client, r.Op.K, r.Op.Key, r.RevAbs, r.Inv, r.Ret, sts)
